@@ -54,6 +54,61 @@ CLAIMED = {
    note="As C03. Execution of the whole plan absent API errors is by construction of the executor model and checked by the correspondence.",
    technique="Coq proof (burst planner completeness) + differential correspondence + monitor",
    ref="6 C14"),
+ "C11": dict(
+   text="Coq theorems (C11.v): a paused set (annotation value exactly \"true\") makes the reconcile the identity — no call at all, success, API state "
+        "unchanged — for every API state, cache and fault oracle; a set with a deletion timestamp issues no pod/claim create, delete, update or "
+        "patch and adopts no ControllerRevision (lifted through the program logic from the planner and the claim/adoption phases). "
+        "Differential run on snapshots with either flag raised (projection: all writes) + monitor.",
+   note="As C03. Losslessness of a pause over histories follows from statelessness + identity; the resume-and-converge part is C02's.",
+   technique="Coq proof (paused reconcile = identity; deleting-set call restrictions for all oracles) + differential correspondence + monitor",
+   ref="6 C11"),
+ "C12": dict(
+   text="Coq theorems (C12.v) for every status write of every reconcile (all API states, caches, oracles): written against the cached resourceVersion "
+        "(a stale writer gets Conflict and changes nothing), observedGeneration = reconciled generation, updateRevision/collisionCount as resolved, "
+        "currentRevision unchanged unless strategy=RollingUpdate and this reconcile's counters say updated=replicas=ready, then = updateRevision. "
+        "PARTIAL: the counter bounds 0<=ready,current,updated<=replicas and the census are not proved in Coq; they are decided by the monitor on "
+        "every status write of the real controller and by the projected correspondence (status payloads).",
+   note="As C03. Partial: counter bounds/census are monitor + correspondence, named C12_counters_partial in C12.v.",
+   technique="Coq proof (status field invariants through the three loops; API precondition) + differential correspondence on status payloads + monitor",
+   ref="6 C12"),
+ "C15": dict(
+   text="Coq theorem (C15.v): for every API state, cache (pods, revisions) and fault oracle, a reconcile of an admitted set (replicas present >= 0, "
+        "revisionHistoryLimit present, any policy/strategy strings, rollingUpdate absent/{}/any partition, any annotations; no int32 wrap) never "
+        "returns a Panic outcome; every modelled panic site (nil replicas, negative make length, nil revisionHistoryLimit) is guarded or excluded. "
+        "Differential run over the CRD-admitted shape product x pod populations under recover, comparing outcome and full log.",
+   note="As C03. Panic sites of the Go code are modelled by hand (nil dereferences guarded by the repaired code are gone); selector kinds modelled: valid / unconvertible.",
+   technique="Coq proof (no-panic program logic over the reconcile model) + differential correspondence under recover + monitor",
+   ref="6 C15"),
+ "C16": dict(
+   text="Coq theorems (C16.v): for every lister and every informer event the handlers' model enqueues exactly the keys of the declarative "
+        "specification (controlled pod add/update/delete/tombstone => the set with that name AND uid; owner change => old then new; orphan add / "
+        "changed orphan => exactly the matching sets; equal resourceVersion, unrelated pods, malformed tombstones => nothing; set events => that set) "
+        "and processNextWorkItem over the work-queue contract always calls Done, re-queues a failed key with NumRequeues+1 and clears it on success, "
+        "for every outcome list. Tied to the code exhaustively over the 2661-shape event domain (hook path and informer-handler path) and all "
+        "outcome sequences on the real controller and real queue.",
+   note="Trusted: Coq kernel; model of handlers/lister; client-go work queue + rate limiter as a CONTRACT (Queue.v), validated by the worker correspondence; "
+        "selector evaluation modelled. Reading: label-less pods match nothing; orphan delete / unchanged orphan update are not relevant events.",
+   technique="Coq proof (handlers == declarative enqueue spec; queue state-machine invariant) + exhaustive differential correspondence + monitor",
+   ref="6 C16"),
+ "C17": dict(
+   text="Coq theorems (C17.v) for every built-in object, API state, fault oracle and kill point: only ControllerRevisions, the Advanced set and the built-in set "
+        "are called; revisions and pods survive; the built-in delete is last, Orphan, after the spec+status copy and the relabelling; any sequence of "
+        "failed or killed attempts followed by a clean run ends like one clean run; no panic. The expression-only-selector defect is proved as "
+        "C17_expression_selector_refuted (open known finding) with the positive statement for selectors having a matchLabels key. Tied to the real "
+        "helper.Upgrade (two fake clientsets, every call position x 6 error kinds x fail/kill, retries).",
+   note="Trusted: Coq kernel; model Upgrade.v; fake tracker + harness_c17 reactors; abstract spec/status (harness checks full JSON equality). Hypotheses: selector "
+        "present and valid, unique revision names, same built-in object per attempt, no third-party writes between attempts.",
+   technique="Coq proof over an executable monadic model with fault oracle and process death + differential correspondence under fault injection + monitor",
+   ref="6 C17"),
+ "C20": dict(
+   text="Coq theorems (C20.v) over a labelled transition system of the relay (all event sequences, payload kinds, source buffer sizes, interleavings): "
+        "received is a converted prefix of the handed events with equal types; Crashed unreachable for marshalable payloads incl. Error/Status; after Stop or "
+        "source end every maximal relay-only run ends Done with the result channel closed (decreasing measure); Stop idempotent; the pre-repair relay is "
+        "refuted (crash, leak). Tied to the real hijackWatch by replaying all schedules <=4 (quick) / <=6 (thorough) on real goroutines.",
+   note="PARTIAL: Go scheduler, channel/select/close semantics, sync.Mutex, defer order and HandleCrash are modelled, not verified; the only leak the model can "
+        "exhibit is a parked relay goroutine. Hypothesis: payloads marshalable by encoding/json.",
+   technique="Coq proof (LTS invariants by induction over runs + termination measure) + differential schedule replay on the real watch + monitor",
+   ref="6 C20"),
 }
 
 checks = []
